@@ -249,8 +249,14 @@ Fixpoint stv_loop (fuel : nat) (cfg : stv_cfg) (t : Q) (p0 p : profile) (sts : l
 Definition ranking_validate (p : profile) : res unit :=
   rfirst_err (fun b => match rk b with [] => err EType | _ => ok tt end) (ballots p).
 
+(* STV.__init__: the profile is validated (rankings, no ties), then — since the fix "random transfer
+   refuses non-integer weights up front" — every weight must be integral when the transfer is the
+   random one, then the seat count, then the threshold (quota name) *)
+Definition is_trandom (t : transfer_kind) : bool :=
+  match t with TRandom => true | _ => false end.
 Definition stv_init (cfg : stv_cfg) (p : profile) : res Q :=
   let! _ := stv_validate p in
+  if is_trandom (s_transfer cfg) && negb (forallb (fun b => is_integral (wt b)) (ballots p)) then err EType else
   if ((s_m cfg <=? 0) || (Z.of_nat (length (cands p)) <? s_m cfg))%Z then err EValue
   else threshold (s_quota cfg) (s_m cfg) (total_wt cand (ballots p)).
 
